@@ -12,7 +12,7 @@ def run(tier, seed):
     g = gen.Gen(seed * 7919 + 8)
     progs = []
     while len(progs) < n:
-        p = g.program({"requests": True, "nstrat": g.rng.choice([0, 1, 2, 2]), "cross": 0.5,
+        p = g.program({"requests": True, "nstrat": g.rng.choice([0, 1, 2, 2]), "cross": 0.5, "full_filters": 0.4,
                        "nsteps": g.rng.choice([2, 3, 4]), "nonlinear": g.rng.random() < 0.35,
                        "t0": g.rng.choice(["0", "1", "-2", "-1", "5/2", "-3/2"])})
         reqs = [{"name": o["name"], "req": o["req"], "save": o.get("save", True)} for o in p["ops"] if o["op"] == "req"]
